@@ -42,6 +42,9 @@ def _shape_programs() -> dict[str, dict[str, Any]]:
 
     f32 = np.float32
     P: dict[str, dict[str, Any]] = {}
+    from vlib import fnmods
+
+    c04_scalar = lambda x: fnmods.c04_scalar_summary(x)  # noqa: E731  (late-bound: the decorated function is patched while tracing)
 
     def add(name, fn, shapes, **kw):
         P[name] = {"fn": fn, "shapes": shapes, **kw}
@@ -88,6 +91,18 @@ def _shape_programs() -> dict[str, dict[str, Any]]:
     add("floordiv_mod_in_shapes", lambda x: jnp.concatenate([x[: x.shape[0] // 2], x[: x.shape[0] % 2 + 1]], axis=0) * 2.0, [("B", 3)])
     add("max_and_min_of_two_dims", lambda a, b: (a.sum() + b.sum()) * 0.0 + jnp.stack([jnp.float32(max(a.shape[0], b.shape[0])), jnp.float32(min(a.shape[0], b.shape[0]))]) if False else (a.sum() + b.sum()) * 0.0 + jnp.stack([jnp.float32(jnp.maximum(a.shape[0], b.shape[0])), jnp.float32(jnp.minimum(a.shape[0], b.shape[0]))]), [("B", 3), ("N", 3)])
     add("dim_div_mod_mul_chain", lambda x: x.reshape(-1)[: (x.shape[0] * 3) // 2] * 1.0 + jnp.float32((x.shape[0] * 3) % 2), [("B", 3)])
+    # symbolic extents x nested scopes: intermediates carrying the symbol live only inside a body,
+    # the construct's results do not carry it, and the enclosing graph asks for the extent afterwards
+    B0 = lambda x: x.shape[0]  # noqa: E731
+    add("cond_scalar_then_broadcast", lambda x: jnp.broadcast_to(lax.cond(jnp.sum(x) > 0, lambda v: jnp.sum(jnp.tanh(v) * 2.0), lambda v: jnp.sum(v - 1.0), x), (B0(x), 4)) + x[:, :1], [("B", 3)])
+    add("scan_scalar_then_broadcast", lambda x: jnp.broadcast_to(lax.scan(lambda c, r: (c + jnp.sum(jnp.tanh(r)), jnp.sum(r)), jnp.zeros((), x.dtype), x.T)[0], (B0(x), 2)) * x[:, :2], [("B", 3)])
+    add("fori_scalar_then_reshape", lambda x: x.reshape(B0(x) * 3) * lax.fori_loop(0, 2, lambda i, s: (s[0] + jnp.sum(jnp.exp(s[1] * 0.1)) * 0.01, s[1]), (jnp.zeros((), x.dtype), x))[0], [("B", 3)])
+    add("while_scalar_then_tile", lambda x: jnp.tile(x, (1, 2)) + lax.while_loop(lambda s: s[0] < 2, lambda s: (s[0] + 1, s[1] + jnp.sum(jnp.abs(s[2])) * 0.1, s[2]), (0, jnp.zeros((), x.dtype), x))[1] + jnp.zeros((B0(x), 1), x.dtype), [("B", 3)])
+    add("cond_scalar_then_dim_as_value", lambda x: lax.cond(jnp.sum(x) > 0, lambda v: jnp.max(v * 2.0), lambda v: jnp.min(v), x) * B0(x) + jnp.zeros((B0(x),), x.dtype), [("B", 3)])
+    add("cond_symbolic_result_then_broadcast", lambda x: jnp.broadcast_to(lax.cond(jnp.sum(x) > 0, lambda v: jnp.tanh(v), lambda v: v * 2.0, x)[:, None, :], (B0(x), 2, 3)), [("B", 3)])
+    add("two_symbols_cond_then_outer", lambda a, b: lax.cond(jnp.sum(a) > 0, lambda u, v: jnp.sum(u) + jnp.sum(v), lambda u, v: jnp.sum(u) - jnp.sum(v), a, b) + jnp.zeros((a.shape[0], b.shape[0]), a.dtype) + a[:, :1], [("B", 3), ("N", 3)])
+    add("nested_cond_in_scan_then_broadcast", lambda x: jnp.broadcast_to(lax.scan(lambda c, r: (lax.cond(jnp.sum(r) > 0, lambda u: u + jnp.sum(r), lambda u: u - 1.0, c), jnp.sum(r)), jnp.zeros((), x.dtype), x.T)[0], (B0(x),)) + x[:, 0], [("B", 3)])
+    add("function_scalar_then_broadcast", lambda x: jnp.broadcast_to(c04_scalar(x), (B0(x), 3)) + x, [("B", 3)])
     add("three_symbols", lambda a, b, c: a[:, None, None] * b[None, :, None] + c[None, None, :], [("B",), ("N",), ("M",)])
     add("reshape_pair_B4_4N", lambda a, b: (a.reshape(4, -1).sum(1) + b.reshape(-1, 4).sum(0)), [("B", 4), (4, "N")])
     return P
@@ -163,7 +178,9 @@ def run_case(case: dict[str, Any], tier: str, seed: int) -> dict[str, Any]:
     except ortrun.OrtEnvLimit as exc:
         return {"status": "inconclusive", "reason": "ort_env_limit", "detail": str(exc)[:200]}
     except ortrun.OrtLoadError as exc:
-        return {"status": "inconclusive", "reason": "ort_load_error(C03 matter)", "detail": str(exc)[:200]}
+        # a symbolic export the runtime refuses accepts *no* binding of its symbols
+        return {"status": "violated", "evals": 1, "nontrivial": [prog.pid + "|load"], "obs": {"symbolic_exports_refused_by_runtime": 1},
+                "violations": [{"family": prog.family, "program": prog.pid, "kind": "symbolic_export_does_not_load", "cls": "all_bindings", "text": f"{prog.pid}: exported with symbolic dims {prog.symbols}, ORT refuses the model: {str(exc)[:250]}"}]}
     rec: dict[str, Any] = {"evals": 0, "nontrivial": [], "violations": [], "obs": {}}
     for b in lattice(prog.symbols, tier):
         res = programs.differential(prog, [("benign", "benign")], seed=seed, binding=b, model=model, sess=sess)
